@@ -98,10 +98,10 @@ def run():
             if n:
                 m = re.search(r"WARNING: DATA RACE\n(.*?)\n\n", txt, re.S)
                 v.fail("race-detector", {"reports": n, "first": (m.group(1) if m else txt)[:2500]})
-            elif rc != 0:
+            elif rc != 0 and not fatal_map(v, txt, "License (race build)") and not library_panic(v, txt, "License (race build)"):
                 raise vlib.Inconclusive("License driver under -race failed:\n" + txt[-3000:])
         else:
-            if fatal_map(v, txt, "License"):
+            if fatal_map(v, txt, "License") or library_panic(v, txt, "License"):
                 continue
             if rc != 0:
                 raise vlib.Inconclusive("License concurrent driver failed:\n" + txt[-3000:])
@@ -121,10 +121,10 @@ def run():
             if n:
                 m = re.search(r"WARNING: DATA RACE\n(.*?)\n\n", txt, re.S)
                 v.fail("race-detector", {"reports": n, "first": (m.group(1) if m else txt)[:2500], "where": "v1 backend"})
-            elif rc != 0:
+            elif rc != 0 and not fatal_map(v, txt, "v1 backend (race build)") and not library_panic(v, txt, "v1 backend (race build)"):
                 raise vlib.Inconclusive("v1 backend driver under -race failed:\n" + txt[-3000:])
         else:
-            if fatal_map(v, txt, "v1 backend"):
+            if fatal_map(v, txt, "v1 backend") or library_panic(v, txt, "v1 backend"):
                 continue
             if rc != 0:
                 raise vlib.Inconclusive("v1 backend driver failed:\n" + txt[-3000:])
